@@ -177,18 +177,7 @@ def run(P, R):
             and isinstance(a.targets[0], ast.Name)}
     calls = [c for c in own_nodes(g.node) if isinstance(c, ast.Call) and isinstance(c.func, ast.Attribute)
              and c.func.attr == 'get_supvisors_instance']
-    ok = False
-    if len(calls) == 1 and calls[0].args:
-        cand = calls[0].args[0]
-        if isinstance(cand, ast.Name):
-            cand = defs.get(cand.id)
-        cv = comp_view(g, cand)
-        src = g.node.args.args[2].arg
-        ok = cv is not None and cv['kind'] == 'list' and cv['iters'] == [src] and cv['elt'] == 'each(%s)' % src and \
-            cv['conds'] == {('each(%s) in supvisors.context.running_identifiers()' % src, True)}
-    R.check(r3, ok, 'candidates are restricted to the instances seen RUNNING', 'running-filter|get_supvisors_instance',
-            g.loc(), 'get_supvisors_instance does not hand the strategy exactly [i for i in identifiers if i in '
-            'context.running_identifiers()]')
+    shared.running_filter(P, R, r3)
     ri = P.unit('Context.running_identifiers')
     R.check(r3, [ast.unparse(v) for v, f, n in returns(ri) if v is not None] ==
             ['self.identifiers_by_states([SupvisorsInstanceStates.RUNNING])'],
